@@ -560,7 +560,7 @@ def cli_processes(ck, R, pool, programs, usable, tier):
             argv = [a for lp in lps for a in ("-I", lp)] + [os.path.join(d, p["entry"])]
             runs += [(i, argv)] * n_runs
             lib_jobs.append({"mode": "compile", "entry": os.path.join(d, p["entry"]), "fs": "std", "logger": "null",
-                             "options": {"load_paths": lps}})
+                             "options": {"load_paths": lps, "load_paths_api": "singular"}})   # the binary uses `load_paths` (plural)
 
         def one(a):
             try:
